@@ -222,6 +222,13 @@ def run_case(item):
         raised = type(exc).__name__
         case['_exc'] = '%s: %s' % (raised, str(exc)[:300])
     events = vh.drain() if vh else []
+    starts = [e for e in events if e['ev'] == 'matcher_start']
+    ends = [e for e in events if e['ev'] in ('matcher_split_end', 'candset_split_end')]
+    rec['tokmode'] = int(case.get('tokmode', 1)) if case['kind'] == 'matcher' else 0
+    rec['hook'] = {'have': 0, 'cache': 0, 'nin': 0}
+    if raised == '' and ends and (case['kind'] != 'matcher' or len(starts) == 1):
+        rec['hook'] = {'have': 1, 'cache': int(bool(starts[0]['cache'])) if starts else 0,
+                       'nin': sum(int(e['n_in']) for e in ends)}
     obs = {'raised': raised, 'fb': fb, 'fa': int(bool(tok.get_return_set())), 'cols': [], 'rows': [],
            'lsame': record.same_as_snapshot(ltable, snaps[0]), 'rsame': record.same_as_snapshot(rtable, snaps[1]),
            'csame': record.same_as_snapshot(cand, snaps[2])}
@@ -277,15 +284,18 @@ def run(tier, seed):
     recs = runner.pmap(run_case, items)
     verdicts, stats = runner.validate(recs, 'TraceMatcher', 'e5')
     by_tid = dict(items)
-    fails = []
+    fails, drift = [], []
     for tid, v in verdicts.items():
         for f in v['fails']:
+            if f[0] == 'DRIFT':
+                drift.append('E5 %s %s (case %s)' % (f[1], f[2:], by_tid[tid].get('_src')))
+                continue
             fails.append({'prop': f[0], 'clause': f[1], 'detail': f[2:], 'case': by_tid[tid], 'engine': 'E5'})
     rng = random.Random(seed)
     samples = [{k: c.get(k) for k in ('kind', 'op', 't', 'am', 'simkind', 'filt', 'meas', 'n_jobs', 'C', '_src')}
                for _, c in rng.sample(items, 3)]
     return {'engine': 'E5', 'cases': len(items), 'traces': len(recs), 'states': res.distinct + stats['states'],
-            'transitions': stats['transitions'], 'fails': fails, 'samples': samples, 'exhaustive': True,
+            'transitions': stats['transitions'], 'fails': fails, 'drift': drift[:50], 'samples': samples, 'exhaustive': True,
             'spec_runs': ['GenCandsets: %d initial states' % res.distinct,
                           'TraceMatcher: %d traces in %d TLC runs' % (len(recs), stats['tlc_runs'])],
             'rule': 'every sequence of distinct key pairs over 2x2 keys up to the length bound x every set of '
